@@ -2,7 +2,7 @@ SPECIFICATION Spec
 CONSTANTS
   D <- D3
   Members <- All3
-  Ns = {1, 2}
+  Ns = {0, 1, 2}
   MaxIters = {0, 1, 2, 3}
   Kinds = {"and", "or", "not"}
   Rules = {"fixed"}
